@@ -605,6 +605,11 @@ class C07(RunSpec):
         p["levels"] = [2, 3, 3, 1]
         p["gscs"] = ["melimit", "evals"]
         p["entry"] = "tree"
+        if idx % 10 == 7:
+            # terraced objective in a three-level tree: candidates of different parents tie exactly, the level limit has to cut
+            p.update({"n_levels": 3, "fam": "plateau", "root": _cycle(["sea", "de", "sea_cx", "lhs"], idx // 10), "inner": _cycle(["sea", "de", "shade"], idx // 10),
+                      "leaf": _cycle(["de", "sea", "cma"], idx // 10), "sprout": "simple", "level_limit": 3, "lscs": ["melimit", "user"], "root_lsc": "dontstop",
+                      "gsc": "melimit", "boxes": ["sym", "asym"], "hibernation": False})
         if idx % 10 == 3:
             # adaptive mutation (its step depends on the deme's own clock) on non-leaf levels, with hibernation and slots that free up
             p.update({"n_levels": 3, "root": "sea_adapt", "inner": "sea_adapt", "leaf": _cycle(["sea", "de", "cma", "shade"], idx // 10), "hibernation": True,
@@ -614,6 +619,11 @@ class C07(RunSpec):
 
     def make_case(self, seed, idx, tier):
         d = super().make_case(seed, idx, tier)
+        if idx % 10 == 7 and d.get("kind") == "tree" and not d.get("reuse"):
+            d["gsc"] = {"k": "melimit", "n": 12}
+            d["obj"]["q"] = 4.0
+            d["sprout"]["far"] = min(b[1] - b[0] for b in d["box"]["bounds"]) * 0.02
+            d["levels"][1]["lsc"] = {"k": "dontstop"}
         if idx % 10 == 3 and d.get("kind") == "tree" and not d.get("reuse"):
             d["gsc"] = {"k": "melimit", "n": 14}
             d["levels"][0]["lsc"] = {"k": "dontstop"}
@@ -625,6 +635,7 @@ class C07(RunSpec):
 
     def floors(self, tier):
         return [
+            ("C07.round_with_tied_candidates_from_different_parents", 3, "round in which candidates of different parents tie exactly"),
             ("C07.adaptive_mutation_deme_woke_up", 2, "a deme with adaptive mutation went through a sleep-wake cycle"),
             ("C07.three_level_tree_two_sprouting_parents", 1, "3-level tree with >=2 sprouting parents on level 1"),
             ("C07.round_creating_2_children", 1, "round creating >=2 children"),
@@ -1118,7 +1129,8 @@ class C14(DirectSpec):
 
     def floors(self, tier):
         fl = [(f"engine.{e}", 1, "engine present") for e in gen.ROOT_ENGINES + gen.CMA_ENGINES + gen.LEAF_ONLY]
-        fl += [("descriptors_with_3_levels", 1, "descriptor with 3 levels"), ("cross_process_twins", 10, "fresh-interpreter twins"), ("descriptors_with_2_demes", 10, "descriptors that produced >=2 demes")]
+        fl += [("two_seed_consuming_demes_sprouted_onto_one_level_in_one_metaepoch", 2, "two CMA-ES / LHS / Sobol demes sprouted onto one level in one metaepoch"),
+               ("descriptors_with_3_levels", 1, "descriptor with 3 levels"), ("cross_process_twins", 10, "fresh-interpreter twins"), ("descriptors_with_2_demes", 10, "descriptors that produced >=2 demes")]
         return fl
 
 
